@@ -130,6 +130,15 @@ def to_flat(R: dict, shape, nA, zero):
     return out
 
 
+def unify(ctx, K, R):
+    """Lift both value lists to complex if any entry of either is complex."""
+    if any(isinstance(v, CPoly) for v in list(K) + list(R)):
+        z = ctx.const(0)
+        K = [v if isinstance(v, CPoly) else CPoly(v, z) for v in K]
+        R = [v if isinstance(v, CPoly) else CPoly(v, z) for v in R]
+    return K, R
+
+
 def split_parts(vals):
     """list of values -> list of (label, Poly) real parts and imaginary parts."""
     out = []
@@ -159,13 +168,9 @@ def coeff_scale(polys):
 def compare_values(ctx, K, R, rel, stats, res, label, base_env=None, witness_seed=0):
     """Pointwise-relative Q-tol on every entry of K - R.
     Returns candidate violations [(entry label, env, D, Rpoly, rel, floor)] to be replayed."""
+    K, R = unify(ctx, K, R)
     kp = split_parts(K)
     rp = split_parts(R)
-    if len(kp) != len(rp):
-        if len(kp) == 2 * len(rp):
-            rp = split_parts([CPoly(r, ctx.const(0)) if not isinstance(r, CPoly) else r for r in R])
-        elif len(rp) == 2 * len(kp):
-            kp = split_parts([CPoly(k, ctx.const(0)) if not isinstance(k, CPoly) else k for k in K])
     cs = max(coeff_scale(rp), 1e-300)
     floor = (FLOOR_STRICT if rel <= 1e-8 else FLOOR_DEFAULT) * cs
     viol = []
@@ -301,8 +306,9 @@ def _run_form(name, spec, res):
                     # vacuity twin: a 1e-3 relative perturbation of one coefficient must come back sat
                     if ci == 0 and nA:
                         res["twins_run"] += 1
-                        kp = split_parts(kr.A)
-                        rp = split_parts(Rf)
+                        KU, RU = unify(ctx, kr.A, Rf)
+                        kp = split_parts(KU)
+                        rp = split_parts(RU)
                         j = next((i for i, (_, p) in enumerate(kp) if p.t), None)
                         if j is not None and len(rp) == len(kp):
                             mono, cf = max(kp[j][1].t.items(), key=lambda kv: abs(kv[1]) * eqcheck.mono_bound(ctx, kv[0]))
